@@ -346,7 +346,7 @@ theorem timersInv06_step (w : Wiring) (c : MonCtx) {s s' : AState} {σ : C06St} 
       · exact hte ⟨_, h⟩
 
 /-- once the loop task is gone all timers are dead (as in C10) -/
-theorem dead_step (w : Wiring) {s s' : AState} {l : Label} (hi : s.isDone = true → AllDead s)
+theorem dead06_step (w : Wiring) {s s' : AState} {l : Label} (hi : s.isDone = true → AllDead s)
     (hs : step w s l = some s') : s'.isDone = true → AllDead s' := by
   obtain ⟨hd1, hd2⟩ := step_isDone w hs
   intro hdn
@@ -503,7 +503,7 @@ theorem c06_step (w : Wiring) (hw : w.notifyAfterStopped = true) (c : MonCtx) {s
   exact ⟨next06 c σ l, by simp [monC06, hbad],
     ⟨flags06_step w c hi.f hs, termInv_step w hw hs hi.t,
      opsInv06_step w c hi.f.fail hi.early hi.ops hs, early06_step c hi.early,
-     dead_step w hi.dead hs, timersInv06_step w c hi.tim hs⟩⟩
+     dead06_step w hi.dead hs, timersInv06_step w c hi.tim hs⟩⟩
 
 theorem c06_init (c : MonCtx) : C06Inv c (AState.init c.cfg c.h0 c.k0) (monC06 c).init := by
   refine ⟨⟨⟨false, ⟨rfl, ?_, ?_⟩⟩, ?_⟩, termInv_init _ _ _, ?_, ?_, ?_, ?_⟩
